@@ -8,6 +8,7 @@ import Bourse.Model.Ops
 import Bourse.Lemmas.Reach
 import Bourse.Lemmas.NoOverflow
 import Bourse.Lemmas.JsonParse
+import Bourse.Lemmas.JsonSnap
 
 namespace Bourse.Props.C07
 open Bourse
@@ -199,6 +200,42 @@ theorem truncated_market_snapshot_rejected (books : List Book) (pretty : Bool) (
     have := congrArg List.length heq
     rw [List.length_take] at this
     omega
+
+open Bourse.Json in
+/-- **Reading back what either writer wrote gives the value written**: `parse (render j) = some j`
+for every JSON value whose strings need no escaping (all snapshot values), compact and pretty. -/
+theorem text_round_trip (j : J) (h : j.WF2) :
+    parse (renderCompact j) = some j ∧ parse (renderPretty 0 j) = some j :=
+  ⟨parse_renderCompact j h, parse_renderPretty j h⟩
+
+open Bourse.Json in
+/-- **C07, first sentence, down to the bytes.** For every book state satisfying the invariant whose
+numbers fit their Rust field types, the text `save_json` writes — compact or pretty — loads back, through
+the reader, the field decoding and the rebuild loop, to exactly the book that was saved: whole
+state, both rebuilt indexes and the stamp counter included. -/
+theorem loadText_saveText (b : Book) (h : Inv b) (hfit : SnapFits b.save) (pretty : Bool) :
+    loadText (saveText b pretty) = some b := by
+  unfold loadText
+  rw [decode_saveText b pretty hfit]
+  simp only [Option.map_some]
+  exact congrArg some (reload_eq h)
+
+open Bourse.Json in
+/-- … in particular after every valid history, and the reloaded book then stays indistinguishable
+under every continuation (`reload_indistinguishable_valid`). -/
+theorem loadText_saveText_valid (t0 tick : Nat) (trading : Bool) (ops : List Op)
+    (h : ValidHistory t0 tick trading ops) (pretty : Bool)
+    (hfit : SnapFits ((Book.new t0 tick trading).run ops).save) :
+    loadText (saveText ((Book.new t0 tick trading).run ops) pretty) = some ((Book.new t0 tick trading).run ops) :=
+  loadText_saveText _ h.inv hfit pretty
+
+open Bourse.Json in
+/-- **The same for a multi-asset market file**: `Market::save_json` then `Market::<n,_>::load_json`
+gives back every book, for any number of assets. -/
+theorem loadMarketText_saveMarketText (books : List Book) (pretty : Bool)
+    (hfit : ∀ b ∈ books, SnapFits b.save) (hinv : ∀ b ∈ books, Inv b) :
+    loadMarketText books.length (saveMarketText books pretty) = some books :=
+  Json.loadMarketText_saveMarketText books pretty hfit hinv
 
 open Bourse.Json in
 /-- Non-vacuity / concrete instance (kernel evaluation): the full texts of a book with a partially
